@@ -63,8 +63,14 @@ func Version(txid []byte, off int32) string {
 	return fmt.Sprintf("%x_%d", txid, off)
 }
 
-// Inadmissible explains why a transaction may not be applied.
-type Inadmissible struct{ Why string }
+// Inadmissible explains why a transaction may not be applied. Kind is one of
+// "dup-input", "spent-input", "amount", "frozen", "sum", "stale-key".
+type Inadmissible struct {
+	Why     string
+	Kind    string
+	Key     string // for stale-key: the key; Current: its current version
+	Current string
+}
 
 func (e *Inadmissible) Error() string { return e.Why }
 
@@ -78,18 +84,18 @@ func (s *State) Check(tx *pb.Transaction, ledgerHeight int64) error {
 	for _, i := range tx.TxInputs {
 		k := CoinKey(i.FromAddr, i.RefTxid, i.RefOffset)
 		if seen[k] {
-			return &Inadmissible{"duplicate input " + k}
+			return &Inadmissible{Why: "duplicate input " + k, Kind: "dup-input"}
 		}
 		seen[k] = true
 		c, ok := s.U[k]
 		if !ok {
-			return &Inadmissible{"input not unspent: " + k}
+			return &Inadmissible{Why: "input not unspent: " + k, Kind: "spent-input"}
 		}
 		if c.Amount.Cmp(new(big.Int).SetBytes(i.Amount)) != 0 {
-			return &Inadmissible{fmt.Sprintf("input %s cites amount %x, real %s", k, i.Amount, c.Amount)}
+			return &Inadmissible{Why: fmt.Sprintf("input %s cites amount %x, real %s", k, i.Amount, c.Amount), Kind: "amount"}
 		}
 		if c.Frozen == -1 || c.Frozen > ledgerHeight {
-			return &Inadmissible{fmt.Sprintf("input %s frozen (%d > %d)", k, c.Frozen, ledgerHeight)}
+			return &Inadmissible{Why: fmt.Sprintf("input %s frozen (%d > %d)", k, c.Frozen, ledgerHeight), Kind: "frozen"}
 		}
 		in.Add(in, c.Amount)
 	}
@@ -98,12 +104,12 @@ func (s *State) Check(tx *pb.Transaction, ledgerHeight int64) error {
 		out.Add(out, new(big.Int).SetBytes(o.Amount))
 	}
 	if in.Cmp(out) != 0 && !(tx.Coinbase && len(tx.TxInputs) == 0) {
-		return &Inadmissible{fmt.Sprintf("inputs %s != outputs %s", in, out)}
+		return &Inadmissible{Why: fmt.Sprintf("inputs %s != outputs %s", in, out), Kind: "sum"}
 	}
 	for _, i := range tx.TxInputsExt {
 		k := i.Bucket + "/" + string(i.Key)
 		if cur := s.KV[k].Version; cur != Version(i.RefTxid, i.RefOffset) {
-			return &Inadmissible{fmt.Sprintf("key %s read at %s, current %s", k, Version(i.RefTxid, i.RefOffset), cur)}
+			return &Inadmissible{Why: fmt.Sprintf("key %s read at %s, current %s", k, Version(i.RefTxid, i.RefOffset), cur), Kind: "stale-key", Key: k, Current: cur}
 		}
 	}
 	return nil
